@@ -36,6 +36,9 @@ def _apply(pass_name, node):
         from func_adl.ast.func_adl_ast_utils import change_extension_functions_to_calls
         from func_adl.ast.function_simplifier import simplify_chained_calls
         return simplify_chained_calls().visit(change_extension_functions_to_calls(node))
+    if pass_name == "sugar":
+        from func_adl.ast.syntatic_sugar import resolve_syntatic_sugar
+        return resolve_syntatic_sugar(node)
     if pass_name == "tofunc":
         from func_adl.ast.func_adl_ast_utils import change_extension_functions_to_calls
         return change_extension_functions_to_calls(node)
